@@ -153,6 +153,7 @@ Failed(e) ==
          \cup {c \in {"C19.symmetric"} : e.res_sym # e.res}
          \cup {c \in {"C19.reflexive"} : ~e.res_refl}
          \cup {c \in {"C19.implied_by_eq"} : e.exact_eq /\ ~e.res}
+         \cup {c \in {"C19.ne_is_negation"} : e.res_ne # ~e.res \/ e.res_ne_sym # ~e.res_sym}
 
 \* Clauses an event exercises (for the vacuity guard).
 Clauses(e) ==
@@ -174,7 +175,7 @@ Clauses(e) ==
     [] e.op = "iv.relative_to" -> IF RelPanics(e.a, e.b) THEN {"C13.relative_panic"}
                              ELSE {"C13.relative_wellformed", "C13.relative_sound", "C13.relative_tight"}
     [] e.op = "iv.display" -> {"C19.display"}
-    [] e.op = "iv.approx" -> {"C19.symmetric", "C19.reflexive"}
+    [] e.op = "iv.approx" -> {"C19.symmetric", "C19.reflexive", "C19.ne_is_negation"}
                              \cup (IF e.a.k = e.b.k THEN {"C19.boundwise"} ELSE {"C19.kind_aware"})
                              \cup (IF e.exact_eq THEN {"C19.implied_by_eq"} ELSE {})
 
